@@ -49,6 +49,11 @@ func programs(quick bool) []program {
 		{"let c=[3,1,2]; c.append(a).string()", "eager constant, append"},
 		{"let c=[3,1,2]; c.order(e->e).string()+c.reverse().string()", "eager constant, sorted and reversed copies"},
 		{"let c=[3,1,2]; c[a]+c.size()", "eager constant, readers only"},
+		{"let c=[5,3,9,1,7,2,8]; c.order(e->e*(1-a*2)).string()", "eager constant sorted with a key whose direction depends on the argument"},
+		{"[5,3,9,1,7,2,8].orderRev(e->e*(1-a*2))[0]", "eager constant sorted in reverse, direction depends on the argument"},
+		{"let c=[5,3,9,1,7].map(e->e+1); c.order(e->e*(1-a*2)).string()+c.string()", "lazy constant sorted in a direction that depends on the argument, then read"},
+		{"[5,3,9,1,7].orderLess((p,q)->p*(1-a*2)<q*(1-a*2)).string()", "eager constant sorted with a less function that depends on the argument"},
+		{"let c=[5,3,9,1,7]; [c.order(e->e*(1-a*2)).first(), c.first(), c.reverse().first()]", "sorted copy and the constant itself read side by side"},
 		{"[a,2,3].map(e->e*2).sum()", "no constant"},
 		{"let f=x->x*2; f(a)+f(1)", "constant closure"},
 		{"let m={k:1,j:2}; m.put(\"x\",a).size()+m.k", "constant map"},
